@@ -64,7 +64,7 @@ def gen_case(rng, kind):
             # a .cx selection (after the parent's caches were filled) as the frame to pack
             "cx_filter": [float(v) for v in rng.uniform(0.2, 0.8, 2)] if rng.random() < 0.25 else None,
             # the same frame object was packed before with another curve order
-            "np_ints": bool(rng.random() < 0.3),
+            "np_ints": bool(rng.random() < 0.3), "via_mixed_parquet": bool(rng.random() < 0.12),
             # rows travel through pickle with the on-disk shuffle
             "shuffle": [None, None, None, "tasks", "disk"][int(rng.integers(5))],
             "packed_before_p": int(rng.choice([1, 3, 9, 14])) if rng.random() < 0.2 else 0,
@@ -117,6 +117,28 @@ def check_case(ctx, case):
                         return rec_raise("cx-before-pack", sel, tbx)
                     ddf, src = sel           # the model is what the selection holds (C06 decides the selection)
                     ctx.count("packs_of_cx_selection")
+            if case.get("via_mixed_parquet") and len(src) >= 2:
+                # the frame to pack comes from one read of two datasets of which only one carries the spatial
+                # metadata (the model is what that read holds: C11 / C06 decide the read itself)
+                import os
+                import shutil
+                from spatialpandas.io import read_parquet_dask
+                root = os.path.join(ctx.scratch, f"c09-mixed-{spec['uid']}-{npin}")
+                shutil.rmtree(root, ignore_errors=True)
+                os.makedirs(root)
+                whole = ddf.compute()
+                h_ = len(whole) // 2
+                ok0, sel, tbx = ctx.guarded(lambda: (
+                    dd.from_pandas(whole.iloc[:h_], npartitions=min(2, h_), sort=False).to_parquet(os.path.join(root, "a.parq")),
+                    dd.to_parquet(dd.from_pandas(whole.iloc[h_:], npartitions=min(3, len(whole) - h_), sort=False),
+                                  os.path.join(root, "b.parq"), write_metadata_file=False),
+                    (lambda q: (q, q.compute()))(read_parquet_dask(
+                        [os.path.join(root, "a.parq"), os.path.join(root, "b.parq")], geometry=act)))[2])
+                if not ok0:
+                    shutil.rmtree(root, ignore_errors=True)
+                    return rec_raise("mixed-parquet-before-pack", sel, tbx)
+                ddf, src = sel
+                ctx.count("packs_of_mixed_parquet_read")
             if len(src) == 0:
                 return
             if case.get("packed_before_p"):
